@@ -3,6 +3,7 @@
 From Coq Require Import Bool List NArith ZArith Lia.
 From M Require ErrQueue.
 From M Require FifoProof.
+From M Require Tie.
 From M Require FifoProof.
 Import ListNotations.
 
@@ -54,4 +55,12 @@ Definition C10_add_spec := @FifoProof.add_spec.
 Definition C10_remove_spec := @FifoProof.remove_spec.
 
 Definition C10_remove_last_spec := @FifoProof.remove_last_spec.
+
+Module T_tie_config. Import Tie. Local Open Scope bool_scope. Local Open Scope Z_scope.
+Local Open Scope Z_scope.
+Theorem C10_tie_config :
+  Generated.gen_config = [1; 1; 0; 1] /\ Generated.gen_desc_parts = 2.
+Proof. exact (@Tie.tie_config). Qed.
+End T_tie_config.
+Definition C10_tie_config := @T_tie_config.C10_tie_config.
 
